@@ -13,16 +13,19 @@ import (
 // Client-side protocol model and retransmitting wrapper for NFSv4.0.
 
 const (
-	kOpen        = "OPEN"
-	kOpenNoent   = "OPEN_NOENT"
-	kOpenConfirm = "OPEN_CONFIRM"
-	kClose       = "CLOSE"
-	kCloseOld    = "CLOSE_OLD_STATEID" // in-order seqid, superseded state ID: fails, seqid consumed, reply cached
-	kCloseBad    = "CLOSE_BAD_STATEID" // in-order seqid, future state ID: fails, seqid NOT consumed (RFC 7530 9.1.7)
-	kDowngrade   = "OPEN_DOWNGRADE"
-	kLockNew     = "LOCK_NEW"
-	kLock        = "LOCK"
-	kLocku       = "LOCKU"
+	kOpen         = "OPEN"
+	kOpenNoent    = "OPEN_NOENT"
+	kOpenConfirm  = "OPEN_CONFIRM"
+	kClose        = "CLOSE"
+	kCloseOld     = "CLOSE_OLD_STATEID" // in-order seqid, superseded state ID: fails, seqid consumed, reply cached
+	kCloseBad     = "CLOSE_BAD_STATEID" // in-order seqid, future state ID: fails, seqid NOT consumed (RFC 7530 9.1.7)
+	kDowngrade    = "OPEN_DOWNGRADE"
+	kOpenErr      = "OPEN_ERR"           // OPEN that fails with an error that consumes the seqid (reply cached)
+	kOpenPrev     = "OPEN_PREVIOUS"      // OPEN with CLAIM_PREVIOUS of a file the owner has open
+	kDowngradeErr = "OPEN_DOWNGRADE_ERR" // OPEN_DOWNGRADE that asks for more access / a deny mode
+	kLockNew      = "LOCK_NEW"
+	kLock         = "LOCK"
+	kLocku        = "LOCKU"
 )
 
 type client40 struct {
@@ -101,6 +104,11 @@ type op40 struct {
 	lseq    uint32
 	stateid nfsv4.Stateid4
 	want    nfsv4.Nfsstat4
+
+	variant  string  // flavour of an error-provoking request
+	noFH     bool    // send without PUTFH
+	clientID *uint64 // client ID to put in the owner instead of the client's
+	nearWrap bool    // the seqid is 0xffffffff or the first one after it
 }
 
 func (op *op40) String() string {
@@ -108,12 +116,15 @@ func (op *op40) String() string {
 	if op.fname != "" {
 		s += " file=" + op.fname
 	}
+	if op.variant != "" {
+		s += " variant=" + op.variant
+	}
 	switch op.kind {
-	case kOpen, kOpenNoent:
+	case kOpen, kOpenNoent, kOpenErr, kOpenPrev:
 		s += fmt.Sprintf(" access=%d create=%v seq=%d", op.access, op.create, op.seq)
 	case kOpenConfirm, kClose, kCloseOld, kCloseBad:
 		s += fmt.Sprintf(" seq=%d sid=%s", op.seq, stateidString(op.stateid))
-	case kDowngrade:
+	case kDowngrade, kDowngradeErr:
 		s += fmt.Sprintf(" to=%d seq=%d sid=%s", op.access, op.seq, stateidString(op.stateid))
 	case kLockNew:
 		s += fmt.Sprintf(" lo=%s slot=%d type=%d seq=%d lseq=%d sid=%s", op.lo.name, op.slot, op.ltype, op.seq, op.lseq, stateidString(op.stateid))
@@ -138,57 +149,105 @@ type v40 struct {
 	held    map[string]map[int]*lf40
 	retired []probeID
 	desyncs int
+	wrapTo  uint32 // successor of sequence ID 0xffffffff
 }
 
 var names40 = []string{"f0", "f1", "f2"}
 
 func (v *v40) build(op *op40) []byte {
 	var ops []nfsv4.NfsArgop4
+	cid := op.o.c.id
+	if op.clientID != nil {
+		cid = *op.clientID
+	}
+	putfh := func() []nfsv4.NfsArgop4 {
+		if op.noFH {
+			return nil
+		}
+		return []nfsv4.NfsArgop4{opPutFH(op.fh)}
+	}
+	off, length := lockRange(op.slot)
+	if op.variant == "len0" {
+		length = 0
+	}
 	switch op.kind {
-	case kOpen, kOpenNoent:
+	case kOpen, kOpenNoent, kOpenErr, kOpenPrev:
 		var how nfsv4.Openflag4 = &nfsv4.Openflag4_default{Opentype: nfsv4.OPEN4_NOCREATE}
 		if op.create {
 			how = &nfsv4.Openflag4_OPEN4_CREATE{How: &nfsv4.Createhow4_UNCHECKED4{}}
 		}
-		ops = []nfsv4.NfsArgop4{
-			&nfsv4.NfsArgop4_OP_PUTROOTFH{},
-			&nfsv4.NfsArgop4_OP_OPEN{Opopen: nfsv4.Open4args{
-				Seqid:       op.seq,
-				ShareAccess: op.access,
-				ShareDeny:   nfsv4.OPEN4_SHARE_DENY_NONE,
-				Owner:       nfsv4.OpenOwner4{Clientid: op.o.c.id, Owner: op.o.name},
-				Openhow:     how,
-				Claim:       &nfsv4.OpenClaim4_CLAIM_NULL{File: op.fname},
-			}},
+		var claim nfsv4.OpenClaim4 = &nfsv4.OpenClaim4_CLAIM_NULL{File: op.fname}
+		deny := uint32(nfsv4.OPEN4_SHARE_DENY_NONE)
+		first := []nfsv4.NfsArgop4{&nfsv4.NfsArgop4_OP_PUTROOTFH{}}
+		switch {
+		case op.kind == kOpenPrev, op.variant == "reclaim-bad":
+			claim = &nfsv4.OpenClaim4_CLAIM_PREVIOUS{DelegateType: nfsv4.OPEN_DELEGATE_NONE}
+			first = putfh()
+		case op.variant == "deny":
+			deny = nfsv4.OPEN4_SHARE_DENY_READ
+		case op.variant == "deleg-cur":
+			claim = &nfsv4.OpenClaim4_CLAIM_DELEGATE_CUR{DelegateCurInfo: nfsv4.OpenClaimDelegateCur4{File: op.fname}}
+		case op.variant == "deleg-prev":
+			claim = &nfsv4.OpenClaim4_CLAIM_DELEGATE_PREV{FileDelegatePrev: op.fname}
+		case op.variant == "guarded-exist":
+			how = &nfsv4.Openflag4_OPEN4_CREATE{How: &nfsv4.Createhow4_GUARDED4{}}
 		}
+		ops = append(first, &nfsv4.NfsArgop4_OP_OPEN{Opopen: nfsv4.Open4args{
+			Seqid:       op.seq,
+			ShareAccess: op.access,
+			ShareDeny:   deny,
+			Owner:       nfsv4.OpenOwner4{Clientid: cid, Owner: op.o.name},
+			Openhow:     how,
+			Claim:       claim,
+		}})
 	case kOpenConfirm:
-		ops = []nfsv4.NfsArgop4{opPutFH(op.fh), &nfsv4.NfsArgop4_OP_OPEN_CONFIRM{OpopenConfirm: nfsv4.OpenConfirm4args{OpenStateid: op.stateid, Seqid: op.seq}}}
+		ops = append(putfh(), &nfsv4.NfsArgop4_OP_OPEN_CONFIRM{OpopenConfirm: nfsv4.OpenConfirm4args{OpenStateid: op.stateid, Seqid: op.seq}})
 	case kClose, kCloseOld, kCloseBad:
-		ops = []nfsv4.NfsArgop4{opPutFH(op.fh), &nfsv4.NfsArgop4_OP_CLOSE{Opclose: nfsv4.Close4args{Seqid: op.seq, OpenStateid: op.stateid}}}
-	case kDowngrade:
-		ops = []nfsv4.NfsArgop4{opPutFH(op.fh), &nfsv4.NfsArgop4_OP_OPEN_DOWNGRADE{OpopenDowngrade: nfsv4.OpenDowngrade4args{OpenStateid: op.stateid, Seqid: op.seq, ShareAccess: op.access, ShareDeny: nfsv4.OPEN4_SHARE_DENY_NONE}}}
+		ops = append(putfh(), &nfsv4.NfsArgop4_OP_CLOSE{Opclose: nfsv4.Close4args{Seqid: op.seq, OpenStateid: op.stateid}})
+	case kDowngrade, kDowngradeErr:
+		deny := uint32(nfsv4.OPEN4_SHARE_DENY_NONE)
+		if op.variant == "deny" {
+			deny = nfsv4.OPEN4_SHARE_DENY_WRITE
+		}
+		ops = append(putfh(), &nfsv4.NfsArgop4_OP_OPEN_DOWNGRADE{OpopenDowngrade: nfsv4.OpenDowngrade4args{OpenStateid: op.stateid, Seqid: op.seq, ShareAccess: op.access, ShareDeny: deny}})
 	case kLockNew:
-		off, length := lockRange(op.slot)
-		ops = []nfsv4.NfsArgop4{opPutFH(op.fh), &nfsv4.NfsArgop4_OP_LOCK{Oplock: nfsv4.Lock4args{
+		ops = append(putfh(), &nfsv4.NfsArgop4_OP_LOCK{Oplock: nfsv4.Lock4args{
 			Locktype: op.ltype, Offset: off, Length: length,
 			Locker: &nfsv4.Locker4_TRUE{OpenOwner: nfsv4.OpenToLockOwner4{
 				OpenSeqid: op.seq, OpenStateid: op.stateid, LockSeqid: op.lseq,
-				LockOwner: nfsv4.LockOwner4{Clientid: op.o.c.id, Owner: op.lo.name},
+				LockOwner: nfsv4.LockOwner4{Clientid: cid, Owner: op.lo.name},
 			}},
-		}}}
+		}})
 	case kLock:
-		off, length := lockRange(op.slot)
-		ops = []nfsv4.NfsArgop4{opPutFH(op.fh), &nfsv4.NfsArgop4_OP_LOCK{Oplock: nfsv4.Lock4args{
+		ops = append(putfh(), &nfsv4.NfsArgop4_OP_LOCK{Oplock: nfsv4.Lock4args{
 			Locktype: op.ltype, Offset: off, Length: length,
 			Locker: &nfsv4.Locker4_FALSE{LockOwner: nfsv4.ExistLockOwner4{LockStateid: op.stateid, LockSeqid: op.lseq}},
-		}}}
+		}})
 	case kLocku:
-		off, length := lockRange(op.slot)
-		ops = []nfsv4.NfsArgop4{opPutFH(op.fh), &nfsv4.NfsArgop4_OP_LOCKU{Oplocku: nfsv4.Locku4args{Locktype: op.ltype, Seqid: op.lseq, LockStateid: op.stateid, Offset: off, Length: length}}}
+		ops = append(putfh(), &nfsv4.NfsArgop4_OP_LOCKU{Oplocku: nfsv4.Locku4args{Locktype: op.ltype, Seqid: op.lseq, LockStateid: op.stateid, Offset: off, Length: length}})
 	default:
 		panic("harness: unknown op kind " + op.kind)
 	}
 	return encodeArgs(compound(0, op.kind, ops...))
+}
+
+// nx is the successor of an owner sequence ID. The programs skip zero when
+// the 32-bit value wraps (0xffffffff -> 1); a server that wraps to 0 is
+// accepted too (see runTracked).
+func (v *v40) nx(x uint32) uint32 {
+	if x == 0xffffffff {
+		return v.wrapTo
+	}
+	return x + 1
+}
+
+// seq0 picks the first sequence ID of a new owner; one in five starts just
+// below the 32-bit wrap-around.
+func (v *v40) seq0() uint32 {
+	if v.rng.IntN(5) == 0 {
+		return 0xfffffff9 + v.rng.Uint32N(7)
+	}
+	return 1 + v.rng.Uint32N(1<<30)
 }
 
 // replyStateid extracts the state ID (and OPEN result flags) carried by
@@ -300,16 +359,16 @@ func (v *v40) allOwners() []*oo40 {
 func (v *v40) next(o *oo40) *op40 {
 	rng := v.rng
 	if !o.started {
-		return v.genOpen(o, 1+rng.Uint32N(1<<30))
+		return v.genOpen(o, v.seq0())
 	}
 	if !o.confirmed {
 		if o.pending == nil || rng.Float64() < 0.1 {
 			// A second OPEN on an unconfirmed open-owner: the
 			// server forgets the first one (RFC 7530, 16.18.5).
-			return v.genOpen(o, o.seq+1)
+			return v.genOpen(o, v.nx(o.seq))
 		}
 		of := o.pending
-		return &op40{kind: kOpenConfirm, o: o, of: of, fname: of.fname, fh: of.fh, seq: o.seq + 1, stateid: of.stateid, want: nfsv4.NFS4_OK}
+		return &op40{kind: kOpenConfirm, o: o, of: of, fname: of.fname, fh: of.fh, seq: v.nx(o.seq), stateid: of.stateid, want: nfsv4.NFS4_OK}
 	}
 
 	type cand struct {
@@ -318,10 +377,36 @@ func (v *v40) next(o *oo40) *op40 {
 	}
 	var cands []cand
 	if len(o.files) < 3 {
-		cands = append(cands, cand{4, func() *op40 { return v.genOpen(o, o.seq+1) }})
+		cands = append(cands, cand{4, func() *op40 { return v.genOpen(o, v.nx(o.seq)) }})
 	}
 	cands = append(cands, cand{1, func() *op40 {
-		return &op40{kind: kOpenNoent, o: o, fname: "missing", access: nfsv4.OPEN4_SHARE_ACCESS_READ, seq: o.seq + 1, want: nfsv4.NFS4ERR_NOENT}
+		return &op40{kind: kOpenNoent, o: o, fname: "missing", access: nfsv4.OPEN4_SHARE_ACCESS_READ, seq: v.nx(o.seq), want: nfsv4.NFS4ERR_NOENT}
+	}})
+	cands = append(cands, cand{2, func() *op40 {
+		// OPENs that fail with an error that consumes the seqid.
+		op := &op40{kind: kOpenErr, o: o, fname: "f0", access: nfsv4.OPEN4_SHARE_ACCESS_READ, seq: v.nx(o.seq)}
+		switch op.variant = pick(rng, []string{"deny", "access0", "deleg-cur", "deleg-prev", "guarded-exist", "reclaim-bad"}); op.variant {
+		case "deny":
+			op.want = nfsv4.NFS4ERR_SHARE_DENIED
+		case "access0":
+			op.access, op.want = 0, nfsv4.NFS4ERR_INVAL
+		case "deleg-cur":
+			op.want = nfsv4.NFS4ERR_RECLAIM_BAD
+		case "deleg-prev":
+			op.want = nfsv4.NFS4ERR_NOTSUPP
+		case "guarded-exist":
+			op.create, op.want = true, nfsv4.NFS4ERR_EXIST
+		case "reclaim-bad":
+			// CLAIM_PREVIOUS of a file this owner does not have open.
+			for _, n := range names40 {
+				if o.files[n] == nil {
+					op.fname, op.fh, op.want = n, v.fs.leaf(n).handle, nfsv4.NFS4ERR_RECLAIM_BAD
+					return op
+				}
+			}
+			return nil
+		}
+		return op
 	}})
 	fnames := make([]string, 0, len(o.files))
 	for n := range o.files {
@@ -332,24 +417,35 @@ func (v *v40) next(o *oo40) *op40 {
 		of := o.files[n]
 		cands = append(cands, cand{2, func() *op40 {
 			// Upgrade/re-open of a file this owner already has open.
-			op := v.genOpen(o, o.seq+1)
+			op := v.genOpen(o, v.nx(o.seq))
 			op.fname, op.create = of.fname, false
 			return op
 		}})
 		cands = append(cands, cand{3, func() *op40 {
-			return &op40{kind: kClose, o: o, of: of, fname: of.fname, fh: of.fh, seq: o.seq + 1, stateid: of.stateid, want: nfsv4.NFS4_OK}
+			return &op40{kind: kClose, o: o, of: of, fname: of.fname, fh: of.fh, seq: v.nx(o.seq), stateid: of.stateid, want: nfsv4.NFS4_OK}
+		}})
+		cands = append(cands, cand{1, func() *op40 {
+			access := pick(rng, []uint32{nfsv4.OPEN4_SHARE_ACCESS_READ, nfsv4.OPEN4_SHARE_ACCESS_WRITE, nfsv4.OPEN4_SHARE_ACCESS_BOTH})
+			return &op40{kind: kOpenPrev, o: o, of: of, fname: of.fname, fh: of.fh, access: access, seq: v.nx(o.seq), want: nfsv4.NFS4_OK}
+		}})
+		cands = append(cands, cand{1, func() *op40 {
+			op := &op40{kind: kDowngradeErr, o: o, of: of, fname: of.fname, fh: of.fh, access: nfsv4.OPEN4_SHARE_ACCESS_BOTH, seq: v.nx(o.seq), stateid: of.stateid, want: nfsv4.NFS4ERR_INVAL}
+			if of.access == nfsv4.OPEN4_SHARE_ACCESS_BOTH {
+				op.variant, op.access = "deny", nfsv4.OPEN4_SHARE_ACCESS_READ
+			}
+			return op
 		}})
 		if of.stateid.Seqid >= 2 {
 			cands = append(cands, cand{1, func() *op40 {
 				sid := of.stateid
 				sid.Seqid--
-				return &op40{kind: kCloseOld, o: o, of: of, fname: of.fname, fh: of.fh, seq: o.seq + 1, stateid: sid, want: nfsv4.NFS4ERR_OLD_STATEID}
+				return &op40{kind: kCloseOld, o: o, of: of, fname: of.fname, fh: of.fh, seq: v.nx(o.seq), stateid: sid, want: nfsv4.NFS4ERR_OLD_STATEID}
 			}})
 		}
 		cands = append(cands, cand{1, func() *op40 {
 			sid := of.stateid
 			sid.Seqid += 7
-			return &op40{kind: kCloseBad, o: o, of: of, fname: of.fname, fh: of.fh, seq: o.seq + 1, stateid: sid, want: nfsv4.NFS4ERR_BAD_STATEID}
+			return &op40{kind: kCloseBad, o: o, of: of, fname: of.fname, fh: of.fh, seq: v.nx(o.seq), stateid: sid, want: nfsv4.NFS4ERR_BAD_STATEID}
 		}})
 		if of.access == nfsv4.OPEN4_SHARE_ACCESS_BOTH {
 			cands = append(cands, cand{2, func() *op40 {
@@ -357,7 +453,7 @@ func (v *v40) next(o *oo40) *op40 {
 				if rng.IntN(2) == 0 {
 					to = nfsv4.OPEN4_SHARE_ACCESS_WRITE
 				}
-				return &op40{kind: kDowngrade, o: o, of: of, fname: of.fname, fh: of.fh, access: to, seq: o.seq + 1, stateid: of.stateid, want: nfsv4.NFS4_OK}
+				return &op40{kind: kDowngrade, o: o, of: of, fname: of.fname, fh: of.fh, access: to, seq: v.nx(o.seq), stateid: of.stateid, want: nfsv4.NFS4_OK}
 			}})
 		}
 		for _, lo := range o.lockOwners {
@@ -369,11 +465,23 @@ func (v *v40) next(o *oo40) *op40 {
 					if !ok {
 						return nil
 					}
-					lseq := 1 + rng.Uint32N(1<<30)
+					lseq := v.seq0()
 					if lo.known {
-						lseq = lo.seq + 1
+						lseq = v.nx(lo.seq)
 					}
-					return &op40{kind: kLockNew, o: o, of: of, fname: of.fname, fh: of.fh, lo: lo, slot: slot, ltype: ltype, seq: o.seq + 1, lseq: lseq, stateid: of.stateid, want: want}
+					op := &op40{kind: kLockNew, o: o, of: of, fname: of.fname, fh: of.fh, lo: lo, slot: slot, ltype: ltype, seq: v.nx(o.seq), lseq: lseq, stateid: of.stateid, want: want}
+					switch rng.IntN(12) {
+					case 0:
+						// Zero-length range: refused by the lock code
+						// after both owners started their transaction.
+						op.variant, op.want = "len0", nfsv4.NFS4ERR_INVAL
+					case 1:
+						// Lock-owner of another client: refused before
+						// the lock-owner is looked up.
+						other := o.c.id + 1
+						op.variant, op.clientID, op.want = "clientid", &other, nfsv4.NFS4ERR_INVAL
+					}
+					return op
 				}})
 				continue
 			}
@@ -382,7 +490,11 @@ func (v *v40) next(o *oo40) *op40 {
 				if !ok {
 					return nil
 				}
-				return &op40{kind: kLock, o: o, of: of, fname: of.fname, fh: of.fh, lo: lo, lf: lf, slot: slot, ltype: ltype, lseq: lo.seq + 1, stateid: lf.stateid, want: want}
+				op := &op40{kind: kLock, o: o, of: of, fname: of.fname, fh: of.fh, lo: lo, lf: lf, slot: slot, ltype: ltype, lseq: v.nx(lo.seq), stateid: lf.stateid, want: want}
+				if rng.IntN(10) == 0 {
+					op.variant, op.want = "len0", nfsv4.NFS4ERR_INVAL
+				}
+				return op
 			}})
 			if len(lf.slots) > 0 {
 				cands = append(cands, cand{3, func() *op40 {
@@ -391,7 +503,7 @@ func (v *v40) next(o *oo40) *op40 {
 						slots = append(slots, s)
 					}
 					sort.Ints(slots)
-					return &op40{kind: kLocku, o: o, of: of, fname: of.fname, fh: of.fh, lo: lo, lf: lf, slot: pick(rng, slots), ltype: nfsv4.WRITE_LT, lseq: lo.seq + 1, stateid: lf.stateid, want: nfsv4.NFS4_OK}
+					return &op40{kind: kLocku, o: o, of: of, fname: of.fname, fh: of.fh, lo: lo, lf: lf, slot: pick(rng, slots), ltype: nfsv4.WRITE_LT, lseq: v.nx(lo.seq), stateid: lf.stateid, want: nfsv4.NFS4_OK}
 				}})
 			}
 		}
@@ -501,8 +613,13 @@ func (v *v40) apply(op *op40, res *nfsv4.Compound4res) bool {
 		if !o.confirmed {
 			o.pending = of
 		}
-	case kOpenNoent, kCloseOld:
+	case kOpenNoent, kCloseOld, kOpenErr, kDowngradeErr:
 		o.seq = op.seq
+	case kOpenPrev:
+		o.seq = op.seq
+		v.retire(op.of.fh, op.of.stateid)
+		op.of.stateid = sid
+		op.of.access |= op.access
 	case kCloseBad:
 		// NFS4ERR_BAD_STATEID does not consume the seqid: the next
 		// request of this owner uses the same one again.
@@ -544,7 +661,7 @@ func (v *v40) apply(op *op40, res *nfsv4.Compound4res) bool {
 			lf := &lf40{lo: lo, of: op.of, stateid: sid, slots: map[int]bool{op.slot: true}}
 			op.of.locks[string(lo.name)] = lf
 			v.hold(op.of.fname, op.slot, lf)
-		} else if lo.known {
+		} else if lo.known && op.variant != "clientid" {
 			lo.seq = op.lseq
 		}
 		lo.last = retx{}
@@ -598,6 +715,10 @@ func (v *v40) runTracked(op *op40, allowDup bool) {
 	req := v.build(op)
 	h := v.holderOf(op)
 	probedBefore := h.probed
+	const maxSeq = 0xffffffff
+	ownerWraps := !op.lockSequenced() && op.o.started && op.o.seq == maxSeq
+	lockWraps := (op.lockSequenced() || op.kind == kLockNew) && op.lo != nil && op.lo.known && op.lo.seq == maxSeq
+	op.nearWrap = ownerWraps || lockWraps || (!op.lockSequenced() && op.seq == maxSeq) || (op.lo != nil && op.lseq == maxSeq)
 	inflight := allowDup && op.kind == kOpen && v.rng.Float64() < 0.3 && !v.inflightDisabled("4.0")
 	var p *pending
 	if inflight {
@@ -613,8 +734,30 @@ func (v *v40) runTracked(op *op40, allowDup bool) {
 		}
 	}
 	st := p.res.Status
+	if st == nfsv4.NFS4ERR_BAD_SEQID && op.want != nfsv4.NFS4ERR_BAD_SEQID && (ownerWraps || lockWraps) && v.wrapTo == 1 && !inflight {
+		// The successor of 0xffffffff is not specified uniformly: this
+		// server refused 1, so it may continue with 0. Try that once
+		// and keep whichever convention it accepts.
+		v.logf("%s -> %s; retrying with sequence ID 0 after the wrap", op, statusName(st))
+		v.wrapTo = 0
+		if ownerWraps {
+			op.seq = 0
+		}
+		if lockWraps {
+			op.lseq = 0
+		}
+		req = v.build(op)
+		var ok bool
+		if p, ok = v.send(req, op.String()); !ok {
+			return
+		}
+		st = p.res.Status
+	}
 	v.logf("%s -> %s", op, statusName(st))
 	v.shape = append(v.shape, op.kind+":"+statusName(st))
+	if (ownerWraps || lockWraps) && st == op.want {
+		v.sit(fmt.Sprintf("seqid-wrap-40-to-%d", v.wrapTo))
+	}
 	if st != op.want {
 		if probedBefore != "" && sequencingStatus[st] {
 			v.violate(fmt.Sprintf("C19 valid-request-rejected v=4.0 op=%s got=%s after=%s", op.kind, statusName(st), probedBefore),
@@ -774,6 +917,9 @@ func (v *v40) checkReplay(h *retx, how string) {
 	if how != "now" {
 		v.sit("replay-after-unrelated-40")
 	}
+	if op.nearWrap {
+		v.sit("replay-at-seqid-wrap-40")
+	}
 	if !bytes.Equal(p.enc, h.reply) {
 		v.violate(fmt.Sprintf("C19 replay-reply-differs v=4.0 op=%s orig=%s dup=%s", op.kind, statusName(h.status), statusName(p.res.Status)),
 			fmt.Sprintf("retransmission (%s) of %s (same owner, same seqid, identical bytes) was answered %s %v, the original got %s; XDR replies differ", how, op, statusName(p.res.Status), resNames(p.res), statusName(h.status)),
@@ -834,25 +980,46 @@ func (v *v40) rejected(what string, h *retx, alt *op40, cacheSurvives bool, deta
 
 func (v *v40) checkMisordered(last *op40) {
 	o := last.o
+	delta := "+2"
+	bump := func(cur uint32) uint32 {
+		if cur >= 0xfffffffd {
+			// Stay clear of both wrap-around conventions.
+			return cur + 5
+		}
+		return cur + 2
+	}
+	if v.rng.IntN(2) == 0 {
+		delta = "-1"
+		bump = func(cur uint32) uint32 { return cur - 1 }
+	}
 	if !o.confirmed {
+		// Unconfirmed open-owner: OPEN_CONFIRM is sequenced, anything
+		// else but OPEN must be refused whatever its seqid.
+		of := o.pending
+		if of == nil || !o.last.present {
+			return
+		}
+		var alt *op40
+		if v.rng.IntN(2) == 0 {
+			alt = &op40{kind: kOpenConfirm, o: o, of: of, fname: of.fname, fh: of.fh, seq: bump(o.seq), stateid: of.stateid}
+		} else {
+			delta = "in-order"
+			alt = &op40{kind: pick(v.rng, []string{kClose, kDowngrade}), o: o, of: of, fname: of.fname, fh: of.fh, access: nfsv4.OPEN4_SHARE_ACCESS_READ, seq: v.nx(o.seq), stateid: of.stateid}
+		}
+		v.sit("misordered-unconfirmed-owner-40")
+		v.rejected("misordered", &o.last, alt, true, "request on an unconfirmed open-owner (seqid "+delta+")")
 		return
 	}
 	op := v.next(o)
 	if op == nil || op.kind == kOpenNoent {
 		return
 	}
-	delta := "+2"
-	bump := func(cur uint32) uint32 { return cur + 2 }
-	if v.rng.IntN(2) == 0 {
-		delta = "-1"
-		bump = func(cur uint32) uint32 { return cur - 1 }
-	}
 	alt := *op
 	cacheSurvives := true
 	switch {
 	case op.lockSequenced():
 		alt.lseq = bump(op.lo.seq)
-	case op.kind == kLockNew && op.lo.known && v.rng.IntN(2) == 0:
+	case op.kind == kLockNew && op.lo.known && op.variant == "" && v.rng.IntN(2) == 0:
 		// In-order open-owner seqid, misordered lock-owner seqid: the
 		// open-owner legitimately starts a new transaction (and may
 		// drop its cached reply), the lock-owner must refuse.
@@ -876,7 +1043,7 @@ func (v *v40) checkDiffOp(last *op40) {
 	var alt *op40
 	o := last.o
 	switch last.kind {
-	case kOpen, kOpenNoent:
+	case kOpen, kOpenNoent, kOpenErr, kOpenPrev:
 		for _, n := range sortedKeys(o.files) {
 			of := o.files[n]
 			alt = &op40{kind: kClose, o: o, of: of, fname: of.fname, fh: of.fh, seq: o.seq, stateid: of.stateid}
@@ -1124,7 +1291,7 @@ func (h *hist) judgeInflightDups(ver, kind string, orig *pending, dups []*pendin
 }
 
 func run40(h *hist) {
-	v := &v40{hist: h, held: map[string]map[int]*lf40{}}
+	v := &v40{hist: h, held: map[string]map[int]*lf40{}, wrapTo: 1}
 	if !v.setup() {
 		return
 	}
@@ -1132,6 +1299,19 @@ func run40(h *hist) {
 	for i := 0; i < steps && !v.abort; i++ {
 		if i > 1 && h.rng.IntN(16) == 0 {
 			v.reboot(pick(h.rng, v.clients))
+			continue
+		}
+		if i > 2 && h.rng.IntN(5) == 0 {
+			// Prefer an owner that holds lock state.
+			o := pick(h.rng, v.allOwners())
+			for _, cand := range v.allOwners() {
+				for _, n := range sortedKeys(cand.files) {
+					if len(cand.files[n].locks) > 0 && len(cand.files) > 1 && h.rng.IntN(2) == 0 {
+						o = cand
+					}
+				}
+			}
+			v.checkRefused(o)
 			continue
 		}
 		o := pick(h.rng, v.allOwners())
@@ -1153,11 +1333,11 @@ func (v *v40) reboot(c *client40) {
 	var op *op40
 	switch {
 	case !o.started:
-		op = v.genOpen(o, 1+v.rng.Uint32N(1<<30))
+		op = v.genOpen(o, v.seq0())
 	case !o.confirmed || (len(o.files) < 3 && v.rng.IntN(2) == 0):
-		op = v.genOpen(o, o.seq+1)
+		op = v.genOpen(o, v.nx(o.seq))
 	default:
-		op = &op40{kind: kOpenNoent, o: o, fname: "missing", access: nfsv4.OPEN4_SHARE_ACCESS_READ, seq: o.seq + 1, want: nfsv4.NFS4ERR_NOENT}
+		op = &op40{kind: kOpenNoent, o: o, fname: "missing", access: nfsv4.OPEN4_SHARE_ACCESS_READ, seq: v.nx(o.seq), want: nfsv4.NFS4ERR_NOENT}
 	}
 	req := v.build(op)
 	g := &v.fs.gate
@@ -1333,5 +1513,232 @@ func (v *v40) reboot(c *client40) {
 		v.violate(fmt.Sprintf("C19 setclientid-confirm-replay-differs v=4.0 got=%s", statusName(d.res.Status)),
 			"retransmission of an executed SETCLIENTID_CONFIRM was not answered NFS4_OK without side effects",
 			map[string]any{"before": before, "after": after})
+	}
+}
+
+// noAdvanceStatus is the list of RFC 7530, section 9.1.7: a request that
+// fails with one of these errors does not consume the owner's sequence ID
+// and nothing is cached for it.
+var noAdvanceStatus = map[nfsv4.Nfsstat4]bool{
+	nfsv4.NFS4ERR_STALE_CLIENTID: true,
+	nfsv4.NFS4ERR_STALE_STATEID:  true,
+	nfsv4.NFS4ERR_BAD_STATEID:    true,
+	nfsv4.NFS4ERR_BAD_SEQID:      true,
+	nfsv4.NFS4ERR_BADXDR:         true,
+	nfsv4.NFS4ERR_RESOURCE:       true,
+	nfsv4.NFS4ERR_NOFILEHANDLE:   true,
+	nfsv4.NFS4ERR_MOVED:          true,
+}
+
+// checkRefused sends a seqid-bearing request with an in-order seqid that
+// the server has to refuse because its state ID, file handle, client ID or
+// lock-owner is wrong. Whatever the error is, the request must not change
+// the open/lock state; if the error is on the RFC 7530 9.1.7 list it must
+// not consume the seqid either (sending it again behaves the same and the
+// next valid request of the owner still uses this seqid); otherwise the
+// seqid is consumed and the error reply is cached like any other.
+func (v *v40) checkRefused(o *oo40) {
+	if !o.confirmed || len(o.files) == 0 {
+		return
+	}
+	of := o.files[pick(v.rng, sortedKeys(o.files))]
+	// Prefer a file next to which a lock-owner of this open-owner holds
+	// lock state on another file: the rarest flavours need that.
+	for _, n := range sortedKeys(o.files) {
+		for _, m := range sortedKeys(o.files) {
+			for _, k := range sortedKeys(o.files[m].locks) {
+				if m != n && o.files[n].locks[k] == nil && v.rng.IntN(2) == 0 {
+					of = o.files[n]
+				}
+			}
+		}
+	}
+	// Base request: one of the six seqid-bearing operations on of.
+	type base struct {
+		op   *op40
+		lock bool // presents a lock state ID
+	}
+	var bases []base
+	bases = append(bases,
+		base{&op40{kind: kClose, o: o, of: of, fname: of.fname, fh: of.fh, seq: v.nx(o.seq), stateid: of.stateid}, false},
+		base{&op40{kind: kOpenConfirm, o: o, of: of, fname: of.fname, fh: of.fh, seq: v.nx(o.seq), stateid: of.stateid}, false},
+		base{&op40{kind: kDowngrade, o: o, of: of, fname: of.fname, fh: of.fh, access: of.access, seq: v.nx(o.seq), stateid: of.stateid}, false},
+	)
+	var freeLO, usedLO *lo40
+	for _, lo := range o.lockOwners {
+		if of.locks[string(lo.name)] == nil {
+			freeLO = lo
+		} else {
+			usedLO = lo
+		}
+	}
+	if freeLO != nil {
+		lseq := v.seq0()
+		if freeLO.known {
+			lseq = v.nx(freeLO.seq)
+		}
+		bases = append(bases, base{&op40{kind: kLockNew, o: o, of: of, fname: of.fname, fh: of.fh, lo: freeLO, slot: 5, ltype: nfsv4.READ_LT, seq: v.nx(o.seq), lseq: lseq, stateid: of.stateid}, false})
+	}
+	if usedLO != nil {
+		lf := of.locks[string(usedLO.name)]
+		bases = append(bases,
+			base{&op40{kind: kLock, o: o, of: of, fname: of.fname, fh: of.fh, lo: usedLO, lf: lf, slot: 5, ltype: nfsv4.READ_LT, lseq: v.nx(usedLO.seq), stateid: lf.stateid}, true},
+			base{&op40{kind: kLocku, o: o, of: of, fname: of.fname, fh: of.fh, lo: usedLO, lf: lf, slot: 5, ltype: nfsv4.WRITE_LT, lseq: v.nx(usedLO.seq), stateid: lf.stateid}, true},
+		)
+	}
+	b := pick(v.rng, bases)
+	alt := *b.op
+	// inTx: the owner's transaction starts before the request is
+	// refused, which legitimately drops the owner's previous cached
+	// reply (the client acknowledged it by using the next seqid).
+	inTx := true
+	variants := []string{"future-stateid", "no-filehandle", "other-file", "anonymous-stateid", "stale-stateid", "unknown-stateid", "stale-clientid"}
+	if usedLO != nil && !b.lock {
+		variants = append(variants, "lock-owner-already-on-file")
+	}
+	var otherLF *lf40
+	for _, n := range sortedKeys(o.files) {
+		if f := o.files[n]; f != of {
+			for _, k := range sortedKeys(f.locks) {
+				if of.locks[k] == nil {
+					otherLF = f.locks[k]
+				}
+			}
+		}
+	}
+	if otherLF != nil {
+		variants = append(variants, "lock-seqid-replayed-in-new-lock")
+	}
+	what := pick(v.rng, variants)
+	// The two lock-owner flavours are rarely applicable: prefer them.
+	if last := variants[len(variants)-1]; strings.HasPrefix(last, "lock-") && v.rng.IntN(2) == 0 {
+		what = last
+		if prev := variants[len(variants)-2]; strings.HasPrefix(prev, "lock-") && v.rng.IntN(2) == 0 {
+			what = prev
+		}
+	}
+	switch what {
+	case "future-stateid":
+		alt.stateid.Seqid += 7
+	case "no-filehandle":
+		alt.noFH = true
+	case "other-file":
+		alt.fh = nil
+		for _, n := range []string{"f0", "f1", "f2"} {
+			if n != of.fname {
+				alt.fh = v.fs.leaf(n).handle
+			}
+		}
+	case "anonymous-stateid":
+		alt.stateid, inTx = nfsv4.Stateid4{}, false
+	case "stale-stateid":
+		alt.stateid.Other[0] ^= 0x55 // state ID of "another server instance"
+		inTx = false
+	case "unknown-stateid":
+		alt.stateid.Other[11] ^= 0x55
+		inTx = false
+	case "stale-clientid":
+		bogus := o.c.id ^ 0x5555
+		alt = op40{kind: kOpen, o: o, fname: "f1", access: nfsv4.OPEN4_SHARE_ACCESS_READ, seq: v.nx(o.seq), clientID: &bogus}
+		inTx = false
+	case "lock-owner-already-on-file":
+		lseq := v.nx(usedLO.seq)
+		alt = op40{kind: kLockNew, o: o, of: of, fname: of.fname, fh: of.fh, lo: usedLO, slot: 5, ltype: nfsv4.READ_LT, seq: v.nx(o.seq), lseq: lseq, stateid: of.stateid}
+	case "lock-seqid-replayed-in-new-lock":
+		// In-order open-owner seqid, but the lock-owner's seqid is that
+		// of its last request.
+		lo := otherLF.lo
+		alt = op40{kind: kLockNew, o: o, of: of, fname: of.fname, fh: of.fh, lo: lo, slot: 5, ltype: nfsv4.READ_LT, seq: v.nx(o.seq), lseq: lo.seq, stateid: of.stateid}
+	}
+	h := v.holderOf(&alt)
+	req := v.build(&alt)
+	before := v.fingerprint()
+	if v.abort {
+		return
+	}
+	p, ok := v.send(req, "REFUSED("+what+") "+alt.String())
+	if !ok {
+		return
+	}
+	v.dups++
+	after := v.fingerprint()
+	if v.abort {
+		return
+	}
+	st := p.res.Status
+	v.logf("  refused(%s): %s -> %s", what, &alt, statusName(st))
+	v.shape = append(v.shape, "refused-"+what+":"+statusName(st))
+	v.sit("refused-in-order-" + what + "-40")
+	// Did a LOCK for this file come back with the lock state ID the
+	// lock-owner holds for another file (its cached last reply)?
+	servedLockOwnerCache := false
+	if what == "lock-seqid-replayed-in-new-lock" {
+		if sid, _, ok := replyStateid(p.res); ok {
+			for _, n := range sortedKeys(o.files) {
+				if f := o.files[n]; f != of {
+					if lf := f.locks[string(alt.lo.name)]; lf != nil && lf.stateid.Other == sid.Other {
+						servedLockOwnerCache = true
+					}
+				}
+			}
+		}
+	}
+	if st == nfsv4.NFS4_OK && !servedLockOwnerCache {
+		v.violate(fmt.Sprintf("C19 invalid-request-executed v=4.0 what=%s op=%s", what, alt.kind),
+			fmt.Sprintf("%s (%s) was executed", &alt, what), nil)
+		v.abort = true
+		return
+	}
+	if !sameState(before, after, !inTx) {
+		v.violate(fmt.Sprintf("C19 refused-request-side-effect v=4.0 what=%s op=%s status=%s", what, alt.kind, statusName(st)),
+			fmt.Sprintf("%s (%s) was refused with %s but changed observable state", &alt, what, statusName(st)),
+			map[string]any{"before": before, "after": after})
+	}
+	if noAdvanceStatus[st] {
+		// Not consumed, not cached: a second transmission is a new
+		// execution with the same outcome.
+		p2, ok := v.send(req, "RESEND "+alt.String())
+		if !ok {
+			return
+		}
+		v.dups++
+		again := v.fingerprint()
+		if v.abort {
+			return
+		}
+		if !bytes.Equal(p2.enc, p.enc) || !sameState(after, again, true) {
+			v.violate(fmt.Sprintf("C19 resend-of-unconsumed-seqid-differs v=4.0 what=%s op=%s", what, alt.kind),
+				fmt.Sprintf("%s failed with %s, which does not consume the seqid; sending it again returned %s / changed state=%v", &alt, statusName(st), statusName(p2.res.Status), after != again),
+				map[string]any{"before": after, "after": again})
+		}
+		if inTx {
+			*h = retx{probed: "refused-" + what}
+		} else {
+			h.probed = "refused-" + what
+			if h.present && v.rng.IntN(2) == 0 {
+				v.checkReplay(h, "after-refused-"+what)
+			}
+		}
+		return
+	}
+	// Any other error consumes the seqid of the owner that sequences the
+	// request, and its reply is cached.
+	v.r.Count("refused_request_consumed_seqid_"+what+"_"+statusName(st), 1)
+	if servedLockOwnerCache {
+		// The implementation treats the lock-owner seqid as a replay and
+		// serves the lock-owner's cached LOCK reply (RFC 7530 9.1.9 only
+		// asks for an operation type and seqid match). Recorded, not
+		// judged; the lock table was checked to be unchanged above.
+		v.r.Count("new_lock_answered_with_lock_owner_cached_reply", 1)
+	}
+	if alt.lockSequenced() {
+		alt.lo.seq = alt.lseq
+	} else {
+		o.seq = alt.seq
+	}
+	alt.want = st
+	*h = retx{op: &alt, req: req, reply: p.enc, status: st, present: true}
+	if v.rng.IntN(2) == 0 {
+		v.checkReplay(h, "now")
 	}
 }
